@@ -30,10 +30,12 @@ fn run(a: u64, b: u64, extra: Option<u64>, source: i128, quantity: i128, max_rou
     ]);
     let store = FixedStore(vec![lovelace_utxo(SENDER, source, 0)]);
     let mut c = compiler(a, b, extra);
+    vf_pipeline::begin_case(format!("transfer(quantity={quantity}) source_utxo={source} coefficient={a} constant={b} extra={extra:?} max_rounds={max_rounds}"));
     pollster::block_on(tx3_resolver::resolve_tx(AnyTir::V1Beta0(tx), &args, &mut c, &store, max_rounds))
 }
 
 fn main() {
+    vf_pipeline::start_watchdog(45);
     let mut cases = 0u64;
     let mut witnesses = 0u64;
     let quantity: i128 = 2_000_000;
